@@ -6,6 +6,7 @@ CFG = {"quick": (2, 2), "thorough": (3, 3)}
 
 META = {
     "functions": [
+        ("datacake-eventual-consistency/src/keyspace/actor.rs", ["on_purge_tombstones"]),
         ("datacake-crdt/src/orswot.rs", ["purge_old_deletes", "add_raw_tombstones", "will_apply", "insert_with_source", "delete_with_source",
                                          "try_update_max_stamp", "compute_safe_last_stamp", "is_ts_before_last_observed_event", "get"]),
     ],
@@ -29,8 +30,9 @@ MANIFEST = {
             "invariant-satisfying replica state, purging changes no live id, removes and reports exactly the tombstones below their "
             "origin's cut-off, and afterwards every operation of the deleting node not newer than a purged delete is refused by "
             "will_apply and the mutator without changing anything (inductive, any history length within the key/node domain); a "
-            "purging and a non-purging copy stay equal on lookups over further timely operations. The multi-replica convergence half "
-            "of the property is outside the claim.",
+            "purging and a non-purging copy stay equal on lookups over further timely operations; the actor-level purge "
+            "(on_purge_tombstones, storage failing part-way) removes only such tombstones, from set and store alike, and re-adds exactly "
+            "those whose removal was not reported. The multi-replica convergence half of the property is outside the claim.",
     "note": "Trusts Kani/CBMC, the vcoll container models, the invariant as an over-approximation of reachable states.",
     "technique": "Kani/CBMC bounded model checking of the compiled source; inductive purge step from symbolic invariant state; differential purging vs non-purging replica; native replay",
 }
@@ -40,7 +42,11 @@ def build(ws, tier, seed, mode):
     keys, nodes = CFG[tier]
     d, mounted, cfg = common.build_crdt_vcoll(ws, mode, ["harness_orswot_common.rs", "harness_c08.rs"], keys, nodes)
     feats = ("verif_replay",) if mode == "replay" else ()
-    return {"crates": {"crdt": {"dir": d, "features": feats}}, "mounted": mounted, "cfg": cfg}
+    # the actor-level purge (KeyspaceActor::on_purge_tombstones with a store that may fail part-way): the C02 actor mount.
+    # It lives in a sub-directory of its own because it brings its own regenerated datacake-crdt (always KEYS=2 NODES=2).
+    da, mounted_a, _ = common.build_actor_mount(ws, mode, ["harness_c02.rs"], 2, 2, subdir="actor")
+    mounted = mounted + [m for m in mounted_a if "eventual-consistency" in m["source"]]
+    return {"crates": {"crdt": {"dir": d, "features": feats}, "ecv": {"dir": da, "features": feats}}, "mounted": mounted, "cfg": cfg}
 
 
 def validate(ws, build, logs_dir):
@@ -58,6 +64,10 @@ def harnesses(tier, seed):
         h("c08_readd_restores_n2", "purge then add_raw_tombstones(reported) restores every view"),
         h("c08_differential_k1_n2", "purging vs non-purging copy, one further timely op"),
     ]
+    hs.append({"name": "c02_on_purge_step", "crate": "ecv", "timeout_s": 800, "mem_gb": 12, "min_covers": 2, "bounds": "KEYS=2 NODES=2",
+               "what": "the actor-level purge (on_purge_tombstones) from an arbitrary agreeing (set, store) state with a store that may fail after "
+                       "removing an arbitrary prefix and reports what it removed in any order: only tombstones below their origin's cut-off "
+                       "disappear, from both sides; a completed purge leaves none of them behind; a failed one keeps exactly the unreported ones"})
     if tier == "thorough":
         hs.append(h("c08_differential_k2_n2", "purging vs non-purging copy, two further timely ops", t=3600, mem=32))
     return hs
